@@ -335,10 +335,12 @@ class ClientWorld:
     def _contained(self, before):
         for _msg, cls in self.eio_log.errors[before:]:
             self.trace.append(['contained', cls])
+        self.trace.append(['<'])          # ... and ends here
 
     def _play(self, r):
         eio = self.eio
         before = len(self.eio_log.errors)
+        self.trace.append(['>'])          # harness-side marker: one transport event starts here
         if r[0] == 'frame':
             if eio.state == 'connected':          # a dead transport delivers nothing
                 eio._trigger_event('message', r[1], run_async=False)
@@ -362,6 +364,7 @@ class ClientWorld:
     async def _aplay(self, r):
         eio = self.eio
         before = len(self.eio_log.errors)
+        self.trace.append(['>'])
         if r[0] == 'frame':
             if eio.state == 'connected':
                 await eio._trigger_event('message', r[1], run_async=False)
